@@ -24,6 +24,7 @@ FIXED_ARGS = [None, "", "a=1", "a=9&z=8", "b", "a=1&a=2", "x y=z+w", ["map"], ["
               ["map", ["a", True]], ["map", ["a", None]], ["map", ["a", ["inf"]]], ["map", ["a", ["nan"]]], ["seq", ["a", ["list", "x"]]],
               ["map", ["z", ["float", "0.0"]]], ["map", ["z", ["float", "-0.0"]]], ["seq", ["z", ["float", "-0.0"]], ["y", ["float", "0.0"]], ["x", 0]],
               ["map", ["a", ["float", "1.0"]], ["b", 1]], ["map", ["a", ["float", "1e+16"]], ["b", 10 ** 16]], ["map", ["a", ["float", "-1.5"]], ["b", -1]],
+              ["map", ["k", ["strsub", "1&admin=1"]]], ["seq", ["k", ["strsub", "a b+c;d=é#%"]]], ["map", ["k", ["list", ["strsub", "x y"], "z"]]],
               ["bytes"], ["other"], ["map", ["a", ["other"]]], ["seq", ["k&", "v="], ["k+", "v;"], ["", ""]], ["map", ["é", "日本"], ["a b", "c d"]]]
 
 
